@@ -10,6 +10,7 @@ import (
 	"path/filepath"
 	"runtime"
 	"runtime/debug"
+	"time"
 
 	"github.com/PowerDNS/lightningstream/snapshot"
 
@@ -298,9 +299,7 @@ func C08() *runner.Property {
 			"termination is decided by a logical bound (Next() calls <= decompressed bytes + 1); the wall-clock watchdog only catches loops outside Next()",
 		},
 		BatchSize:       4,
-		CaseTimeout:     60e9,
-		HangIsViolation: true,
-		HangConfirm:     120e9,
+		CaseTimeout:     3600e9,
 		Cases: func(tier string, seed int64) []runner.Case {
 			r := rng.New(uint64(seed) ^ 0xC08)
 			per := map[string]int{"g1-raw": 4, "g1-gz": 8, "g2-trunc": 8, "g2-flip-pb": 12, "g2-flip-gz": 4, "g3-struct": 24, "g3-tiny": 8, "g4-gzip": 2}
@@ -390,6 +389,31 @@ func DecodeAll(blob []byte, decompressed int) (out decodeOutcome, sig, msg strin
 	return
 }
 
+// decodeWithWatchdog: a single input that keeps the decoder busy for more than 30 s (120 s when replayed alone) is a
+// hang; inputs of this size decode in milliseconds, so the bound is four orders of magnitude above normal and the
+// whole case is never judged by its total running time (thousands of inputs under CPU contention add up).
+func decodeWithWatchdog(blob []byte, decompressed int, replay bool) (decodeOutcome, string, string) {
+	type r struct {
+		out      decodeOutcome
+		sig, msg string
+	}
+	ch := make(chan r, 1)
+	go func() {
+		o, s, m := DecodeAll(blob, decompressed)
+		ch <- r{o, s, m}
+	}()
+	limit := 30 * time.Second
+	if replay {
+		limit = 120 * time.Second
+	}
+	select {
+	case x := <-ch:
+		return x.out, x.sig, x.msg
+	case <-time.After(limit):
+		return decodeOutcome{}, "hang", fmt.Sprintf("decoding one input of %d bytes (%d decompressed) did not finish within %v", len(blob), decompressed, limit)
+	}
+}
+
 func runC08(c runner.Case, env *runner.Env) (res runner.Result) {
 	var p c08Params
 	runner.Params(c, &p)
@@ -404,7 +428,7 @@ func runC08(c runner.Case, env *runner.Env) (res runner.Result) {
 		reached := gzErr == nil
 		runtime.ReadMemStats(&ms)
 		before := ms.TotalAlloc
-		out, sig, msg := DecodeAll(blob, len(pb))
+		out, sig, msg := decodeWithWatchdog(blob, len(pb), env.Replay)
 		runtime.ReadMemStats(&ms)
 		alloc := ms.TotalAlloc - before
 		res.Count("inputs", 1)
@@ -430,6 +454,12 @@ func runC08(c runner.Case, env *runner.Env) (res runner.Result) {
 		wit := map[string]any{"gen": p.Gen, "seed": p.Seed, "index": i, "desc": desc, "blob_hex": fmt.Sprintf("%x", head(blob, 4096)), "blob_len": len(blob)}
 		if sig != "" {
 			res.Violate(sig, desc+": "+msg, wit)
+			if sig == "hang" {
+				// the decoder goroutine is still spinning: end this process after the result is recorded
+				res.ExitAfter = true
+				res.NonTrivial = true
+				return
+			}
 			continue
 		}
 		limit := uint64(64*(len(blob)+len(pb))) + 32<<20
